@@ -948,3 +948,168 @@ Section Induction.
       rewrite puts_fresh_model; [rewrite enc_model; exact F1|reflexivity|apply paths_nonempty_concat, F2|exact Hne].
   Qed.
 End Induction.
+
+(* ================================================================== F. pydantic construction gives the instance back *)
+Fixpoint fields_valid (fds : list field) (fs : list (str * value)) : Prop :=
+  match fds, fs with
+  | [], [] => True
+  | (n, (tf, d)) :: fds', (n', v') :: fs' =>
+    n = n' /\ (is_default d v' = true \/ (is_default d v' = false /\ validate tf (enc tf v') = Ok v'))
+    /\ fields_valid fds' fs'
+  | _, _ => False
+  end.
+
+Lemma enc_fields_keys fds : forall fs k,
+  ~ In k (map f_name fds) -> dget (enc_fields fds fs) k = None.
+Proof.
+  induction fds as [|[n [tf d]] r IH]; intros fs k Hk; [reflexivity|].
+  destruct fs as [|[n' v'] fs']; [reflexivity|]. cbn [enc_fields].
+  cbn [map f_name fst] in Hk.
+  assert (Hr : ~ In k (map f_name r)) by (intros H; apply Hk; right; exact H).
+  destruct (is_default d v'); [apply IH, Hr|].
+  unfold dget. cbn [oget]. destruct (str_eqb n k) eqn:E; [|apply IH, Hr].
+  apply str_eqb_eq in E. exfalso. apply Hk. left. exact E.
+Qed.
+
+Lemma validate_fields_enc fds : forall fs pre,
+  NoDup (map f_name fds) ->
+  (forall f, In f fds -> dget pre (f_name f) = None) ->
+  fields_valid fds fs ->
+  validate_fields (pre ++ enc_fields fds fs) fds = Ok fs.
+Proof.
+  induction fds as [|[n [tf d]] r IH]; intros [|[n' v'] fs'] pre Hnd Hfresh Hv; cbn [fields_valid] in Hv; try contradiction.
+  - reflexivity.
+  - destruct Hv as (<- & Hc & Hv). cbn [map f_name fst] in Hnd. inversion Hnd as [|? ? Hnot Hnd']; subst.
+    assert (Hpn : dget pre n = None) by (apply (Hfresh (n, (tf, d))); left; reflexivity).
+    cbn [validate_fields enc_fields]. destruct Hc as [Hdef|[Hdef Hval]]; rewrite Hdef.
+    + rewrite (dget_app_none pre _ n Hpn), (enc_fields_keys r fs' n Hnot).
+      rewrite (is_default_eq d v' Hdef). cbn [bind].
+      rewrite (IH fs' pre Hnd'); [reflexivity| |exact Hv]. intros f Hf. apply Hfresh. right. exact Hf.
+    + rewrite (dget_app_none pre _ n Hpn). unfold dget at 1. cbn [oget]. rewrite str_eqb_refl, Hval. cbn [bind].
+      replace (pre ++ (n, enc tf v') :: enc_fields r fs') with ((pre ++ [(n, enc tf v')]) ++ enc_fields r fs')
+        by (rewrite <- app_assoc; reflexivity).
+      rewrite (IH fs' (pre ++ [(n, enc tf v')]) Hnd'); [reflexivity| |exact Hv].
+      intros f Hf. rewrite dget_app_none by (apply Hfresh; right; exact Hf).
+      unfold dget. cbn [oget]. destruct (str_eqb n (f_name f)) eqn:E; [|reflexivity].
+      apply str_eqb_eq in E. exfalso. apply Hnot. rewrite E. apply in_map, Hf.
+Qed.
+
+Lemma validate_none t : validate t ONone = Err EValidation.
+Proof. destruct t; reflexivity. Qed.
+
+Lemma enc_fields_not_none fds : forall fs,
+  fields_valid fds fs -> Forall (fun kv => not_none kv = true) (enc_fields fds fs).
+Proof.
+  induction fds as [|[n [tf d]] r IH]; intros [|[n' v'] fs'] Hv; cbn [fields_valid] in Hv; try contradiction; [constructor|].
+  destruct Hv as (_ & Hc & Hv). cbn [enc_fields]. destruct Hc as [Hdef|[Hdef Hval]]; rewrite Hdef; [apply IH, Hv|].
+  constructor; [|apply IH, Hv]. unfold not_none. cbn [snd].
+  destruct (enc tf v') eqn:E; try reflexivity. rewrite validate_none in Hval. discriminate.
+Qed.
+
+Lemma validate_basic t v : is_basic_ty t = true -> basic_ok t v = true -> validate t (enc t v) = Ok v.
+Proof. intros Ht Hok. destruct t; try discriminate; destruct v; try discriminate; reflexivity. Qed.
+
+Lemma mapR_validate_basics t' l :
+  is_basic_ty t' = true -> forallb (basic_ok t') l = true -> mapR (validate t') (map (enc t') l) = Ok l.
+Proof.
+  intros Ht. induction l as [|v r IH]; [reflexivity|]. cbn [forallb]. intros H.
+  apply andb_true_iff in H as [H1 H2]. cbn [map mapR]. rewrite (validate_basic t' v Ht H1), (IH H2). reflexivity.
+Qed.
+
+Lemma out_to_value_enc_u v : forall x, to_nv_u v = Ok x -> out_to_value (enc_u v) = Ok v.
+Proof.
+  induction v as [s|z|s|b|l IH|fs IH] using value_ind'; intros x Hx; try discriminate; [reflexivity|].
+  cbn [to_nv_u] in Hx. apply rmap_ok_inv in Hx as (xs & Hxs & _). cbn [enc_u out_to_value].
+  assert (G : mapR out_to_value (map enc_u l) = Ok l); [|rewrite G; reflexivity].
+  revert xs Hxs. induction IH as [|v r Hv Hr IHr]; intros xs Hxs; [reflexivity|].
+  apply mapR_ok_inv in Hxs as (y & yr & Hy & Hyr & _). cbn [map mapR].
+  rewrite (Hv y Hy), (IHr yr Hyr). reflexivity.
+Qed.
+
+Lemma fields_valid_packable fds h2f : forall fs,
+  fields_packable fds h2f fs = true -> fields_valid fds fs.
+Proof.
+  induction fds as [|[n [tf d]] r IH]; intros [|[n' v'] fs'] H; cbn [fields_packable] in H; try discriminate; [exact I|].
+  apply andb_true_iff in H as [H H3]. apply andb_true_iff in H as [H1 H2]. apply str_eqb_eq in H1.
+  cbn [fields_valid]. split; [exact H1|]. split; [|apply IH, H3].
+  destruct (is_default d v') eqn:Ed; [left; reflexivity|right]. split; [reflexivity|].
+  apply andb_true_iff in H2 as [H2 _]. apply andb_true_iff in H2 as [Hb Hok]. apply validate_basic; assumption.
+Qed.
+
+Lemma validate_model_enc fields h2f f2h fs :
+  nodup_names fields = true -> fields_valid fields fs ->
+  validate (TModel fields h2f f2h) (enc (TModel fields h2f f2h) (VModel fs)) = Ok (VModel fs).
+Proof.
+  intros Hnd Hv. rewrite enc_model, validate_model.
+  change (enc_fields fields fs) with ([] ++ enc_fields fields fs).
+  rewrite (validate_fields_enc fields fs [] (nodup_str_NoDup _ Hnd) (fun f _ => eq_refl) Hv). reflexivity.
+Qed.
+
+Lemma validate_packed t v :
+  is_basic_ty t = false -> packed_ok t v = true -> validate t (enc t v) = Ok v.
+Proof.
+  intros Ht Hp.
+  destruct t as [| | | | |t'|fields h2f f2h]; try discriminate; destruct v as [| | | |l|fs]; try discriminate.
+  - unfold packed_ok in Hp. destruct (to_nv TUList (VList l)) as [x|] eqn:Hx; [|discriminate].
+    apply (out_to_value_enc_u (VList l) x). exact Hx.
+  - destruct l as [|e l']; [reflexivity|].
+    unfold packed_ok in Hp. destruct (to_nv (TList t') (VList (e :: l'))) as [x|] eqn:Hx; [|discriminate].
+    apply andb_true_iff in Hp as [_ He]. unfold elems_packable in He. cbn [enc validate].
+    destruct (is_basic_ty t') eqn:Hb.
+    + rewrite (mapR_validate_basics t' (e :: l') Hb He). reflexivity.
+    + destruct t' as [| | | | |b|]; try discriminate. apply andb_true_iff in He as [Hb2 He].
+      assert (Hone : forall l2, forallb (basic_ok b) l2 = true ->
+                       validate (TList b) (enc (TList b) (VList l2)) = Ok (VList l2)).
+      { intros l2 H2. cbn [enc validate]. rewrite (mapR_validate_basics b l2 Hb2 H2). reflexivity. }
+      assert (G : mapR (validate (TList b)) (map (enc (TList b)) (e :: l')) = Ok (e :: l')); [|rewrite G; reflexivity].
+      revert He. generalize (e :: l'). intros l. induction l as [|v r IH]; [reflexivity|].
+      cbn [forallb]. intros H. apply andb_true_iff in H as [H1 H2]. destruct v as [| | | |l2|]; try discriminate.
+      cbn [map mapR]. rewrite (Hone l2 H1), (IH H2). reflexivity.
+  - unfold packed_ok in Hp. destruct (to_nv (TModel fields h2f f2h) (VModel fs)) as [x|] eqn:Hx; [|discriminate].
+    apply andb_true_iff in Hp as [_ He]. apply andb_true_iff in He as [Hnd Hf].
+    apply validate_model_enc; [exact Hnd|apply (fields_valid_packable _ h2f), Hf].
+Qed.
+
+Section Validate.
+  Variable tgt : list str -> bool.
+
+  Theorem validate_enc : forall t v comps, dom tgt t v comps = true -> validate t (enc t v) = Ok v.
+  Proof.
+    induction t as [| | | | |t' IH|fields h2f f2h IH] using ty_ind'; intros v comps Hd;
+      try (apply validate_basic; [reflexivity|exact Hd]);
+      rewrite dom_unfold in Hd; cbn [is_basic_ty] in Hd;
+      (destruct (tgt comps) eqn:Et; [apply validate_packed; [reflexivity|exact Hd]|]).
+    - destruct v as [| | | |l|]; try discriminate. cbn [enc validate].
+      assert (G : mapR out_to_value (map enc_u l) = Ok l); [|rewrite G; reflexivity].
+      induction l as [|e r IHl]; [reflexivity|]. cbn [forallb] in Hd. apply andb_true_iff in Hd as [H1 H2].
+      destruct e; try discriminate. cbn [map mapR enc_u out_to_value]. rewrite (IHl H2). reflexivity.
+    - destruct v as [| | | |l|]; try discriminate. cbn [enc validate].
+      assert (G : mapR (validate t') (map (enc t') l) = Ok l); [|rewrite G; reflexivity].
+      revert Hd. generalize O. induction l as [|e r IHl]; intros i Hd; [reflexivity|].
+      cbn [dom_elems] in Hd. cbn zeta in Hd. apply andb_true_iff in Hd as [Hd H3]. apply andb_true_iff in Hd as [_ H2].
+      cbn [map mapR]. rewrite (IH e _ H2), (IHl (S i) H3). reflexivity.
+    - destruct v as [| | | | |fs]; try discriminate. apply andb_true_iff in Hd as [Hnd Hd].
+      apply validate_model_enc; [exact Hnd|]. clear Hnd. revert fs Hd.
+      induction IH as [|[n [tf d]] r IHf _ IHr]; intros [|[n' v'] fs'] Hd; cbn [dom_fields] in Hd; try discriminate; [exact I|].
+      apply andb_true_iff in Hd as [Hd H3]. apply andb_true_iff in Hd as [H1 H2]. apply str_eqb_eq in H1.
+      cbn [fields_valid]. split; [exact H1|]. split; [|apply IHr, H3].
+      destruct (is_default d v') eqn:Ed; [left; reflexivity|right]. split; [reflexivity|].
+      cbn zeta in H2. apply andb_true_iff in H2 as [_ Hc]. cbn [f_ty fst snd] in IHf.
+      destruct (str_eqb n (remap_get f2h n)).
+      + apply andb_true_iff in Hc as [_ Hdm]. apply (IHf v' _ Hdm).
+      + destruct (is_basic_ty tf) eqn:Hb; [apply validate_basic|apply validate_packed]; assumption.
+  Qed.
+
+  Lemma dom_fields_valid h2f f2h comps fds : forall fs,
+    dom_fields tgt h2f f2h comps fds fs = true -> fields_valid fds fs.
+  Proof.
+    induction fds as [|[n [tf d]] r IHr]; intros [|[n' v'] fs'] Hd; cbn [dom_fields] in Hd; try discriminate; [exact I|].
+    apply andb_true_iff in Hd as [Hd H3]. apply andb_true_iff in Hd as [H1 H2]. apply str_eqb_eq in H1.
+    cbn [fields_valid]. split; [exact H1|]. split; [|apply IHr, H3].
+    destruct (is_default d v') eqn:Ed; [left; reflexivity|right]. split; [reflexivity|].
+    cbn zeta in H2. apply andb_true_iff in H2 as [_ Hc].
+    destruct (str_eqb n (remap_get f2h n)).
+    + apply andb_true_iff in Hc as [_ Hdm]. apply (validate_enc tf v' _ Hdm).
+    + destruct (is_basic_ty tf) eqn:Hb; [apply validate_basic|apply validate_packed]; assumption.
+  Qed.
+End Validate.
